@@ -40,6 +40,8 @@ type Engine struct {
 	safetyScope func(*ssa.Function) bool
 	implCache  map[string][]*ssa.Function
 	specInProgress map[string]bool
+	paramCalls map[*ssa.Function]map[int]bool // function-typed parameters that are called
+	ifaceImplCache map[*ssa.Function]bool
 }
 
 const (
@@ -72,7 +74,7 @@ func loadEngine(repoGo, specDir string) (*Engine, error) {
 		callees: map[*ssa.Function][]*ssa.Function{}, addrTaken: map[*ssa.Function]bool{},
 		cellClos: map[*FT]map[string]*Closure{}, usedExternals: map[string]string{},
 		ghostTypes: map[string]types.Type{}, srcCache: map[string][]string{}, implCache: map[string][]*ssa.Function{},
-		nilSafeRecv: map[string]bool{}, specInProgress: map[string]bool{}}
+		nilSafeRecv: map[string]bool{}, specInProgress: map[string]bool{}, paramCalls: map[*ssa.Function]map[int]bool{}}
 	for _, p := range spkgs {
 		if p == nil || !strings.HasPrefix(p.Pkg.Path(), repoPkgPrefix) {
 			continue
@@ -406,24 +408,48 @@ func (e *Engine) writableThrough(t types.Type, ms map[string]bool, depth int) {
 	case *types.Slice:
 		h, _ := e.u.elemHeap(tt.Elem())
 		ms[h] = true
+		e.writableThrough(tt.Elem(), ms, depth+1)
 	case *types.Pointer:
 		if isStruct(tt.Elem()) {
-			if n, ok := tt.Elem().(*types.Named); ok && n.Obj().Pkg() != nil && strings.HasPrefix(n.Obj().Pkg().Path(), repoPkgPrefix) {
+			repo := false
+			if n, ok := tt.Elem().(*types.Named); ok {
+				repo = n.Obj().Pkg() != nil && strings.HasPrefix(n.Obj().Pkg().Path(), repoPkgPrefix)
+			} else {
+				repo = true // anonymous struct declared in repository code
+			}
+			if repo {
 				hs := map[string]bool{}
 				e.u.structHeaps(tt.Elem(), hs)
 				for h := range hs {
 					ms[h] = true
 				}
+				// objects reachable through pointer / slice fields
+				st := tt.Elem().Underlying().(*types.Struct)
+				for i := 0; i < st.NumFields(); i++ {
+					switch ft := st.Field(i).Type().Underlying().(type) {
+					case *types.Pointer, *types.Slice, *types.Map:
+						e.writableThrough(ft, ms, depth+1)
+					}
+				}
 			}
 		} else {
 			h, _ := e.u.cellHeap(tt.Elem())
 			ms[h] = true
+			e.writableThrough(tt.Elem(), ms, depth+1)
 		}
 	case *types.Map:
 		d, v, _, _ := e.u.mapHeaps(tt)
 		ms[d] = true
 		ms[v] = true
 	}
+}
+
+// actualArgType: the static type of an argument before conversion to an interface
+func actualArgType(v ssa.Value) types.Type {
+	if mi, ok := v.(*ssa.MakeInterface); ok {
+		return mi.X.Type()
+	}
+	return v.Type()
 }
 
 // ---------------------------------------------------------------------------
@@ -610,10 +636,68 @@ func (e *Engine) instrWritesLevel(ins ssa.Instruction, out map[string]int) {
 			}
 		}
 		if len(e.possibleCallees(c)) == 0 && !c.IsInvoke() && c.StaticCallee() == nil {
+			// call of a function-typed parameter: effects are those of the
+			// actual argument, resolved at the call sites of this function
+			if prm, ok := c.Value.(*ssa.Parameter); ok {
+				fn := prm.Parent()
+				for i, q := range fn.Params {
+					if q == prm {
+						if e.paramCalls[fn] == nil {
+							e.paramCalls[fn] = map[int]bool{}
+						}
+						e.paramCalls[fn][i] = true
+					}
+				}
+				return
+			}
 			// dynamic call of unknown function value
 			ms, _ := e.dynamicCallEffects(c.Signature())
 			for h := range ms {
 				add(h, modAny)
+			}
+		}
+	}
+}
+
+// argument function effects: for callee parameters that are called, add the
+// effects of the actual function argument (or all candidates if unknown)
+func (e *Engine) argFuncEffects(f *ssa.Function, c *ssa.CallCommon, out map[string]int) {
+	pc := e.paramCalls[f]
+	if len(pc) == 0 {
+		return
+	}
+	for i := range pc {
+		var known *ssa.Function
+		if c != nil {
+			args := c.Args
+			idx := i
+			if c.IsInvoke() {
+				idx = i - 1
+			}
+			if idx >= 0 && idx < len(args) {
+				switch a := args[idx].(type) {
+				case *ssa.MakeClosure:
+					known = a.Fn.(*ssa.Function)
+				case *ssa.Function:
+					known = a
+				}
+			}
+		}
+		if known != nil {
+			for h, l := range e.modsets[known] {
+				if out[h] < l {
+					out[h] = l
+				}
+			}
+			e.argFuncEffects(known, nil, out)
+			continue
+		}
+		if i < len(f.Params) {
+			if sig, ok := f.Params[i].Type().Underlying().(*types.Signature); ok {
+				ms, _ := e.dynamicCallEffects(sig)
+				for h := range ms {
+					out[h] = modAny
+				}
 			}
 		}
 	}
@@ -665,17 +749,26 @@ func (e *Engine) calleeEffects(f *ssa.Function, c *ssa.CallCommon) map[string]in
 		}
 		return out
 	}
+	if f.Blocks != nil && e.inRepo(f) && len(e.paramCalls[f]) > 0 && (fc == nil || !fc.HasMod) {
+		out := map[string]int{}
+		for h, l := range e.modsets[f] {
+			out[h] = l
+		}
+		if fc != nil {
+			for _, u := range fc.Updates {
+				out[e.ghostHeap(u.Label)] = modAny
+			}
+		}
+		e.argFuncEffects(f, c, out)
+		return out
+	}
 	if f.Blocks == nil || !e.inRepo(f) {
 		// external without contract
 		out := map[string]int{}
 		if !e.knownPure(e.extName(f)) && c != nil {
 			ms := map[string]bool{}
 			for _, a := range c.Args {
-				t := a.Type()
-				if mi, ok := a.(*ssa.MakeInterface); ok {
-					t = mi.X.Type()
-				}
-				e.writableThrough(t, ms, 0)
+				e.writableThrough(actualArgType(a), ms, 0)
 			}
 			for h := range ms {
 				out[h] = modAny
